@@ -21,13 +21,14 @@ objects, `bigint` = JSON integer, `A & B` on objects = disjoint merge).  What is
 
 * `C01_items_sound` / `C01_types_sound` — END TO END for the core fragment (`Tree.fragB`: structs of
   every shape and enums of every representation with rename / rename_all / rename_all_fields / tag /
-  content / skip / per-variant untagged, type parameters (generic items at any instantiation), any library
-  types around user types, recursion; no flatten, inline, optional, `as`, `type`, `concrete`): for EVERY program in the fragment, every type, every value,
+  content / skip / per-variant untagged, `optional` / `optional = nullable` / `optional_fields` paired with
+  `skip_serializing_if`, type parameters (generic items at any instantiation), any library types around user
+  types, recursion; no flatten, inline, `as`, `type`, `concrete`): for EVERY program in the fragment, every type, every value,
   every fuel, what the serde model writes inhabits what the tree-level derive (`Model/TreeDerive.lean`)
   declares. Tie: the tree-level derive is compared with the parsed REAL `decl()` of every corpus item in
   the fragment on every run (`tree_check`), the serde model with the real serde_json output.
 
-PARTIAL: outside that fragment (flatten, inline, optional, `as`, `concrete`) the composition over the whole
+PARTIAL: outside that fragment (flatten, inline, `as`, `concrete`) the composition over the whole
 derive is not one theorem; it is decided per run by the sound oracle on every generated program and
 value (thousands per run, all enum representations × shapes × attributes × generics).
 -/
